@@ -241,8 +241,8 @@ pub fn c15_run(ctx: &Ctx) -> i32 {
     let out = run_sharded(ctx, "C15-source", ctx.budget(60_000, 1_000_000), || raw_text(&[0]), c15_source_test);
     rep.absorb("E1-proptest-sources", out);
     if ctx.tier == Tier::Thorough {
-        crate::fuzzrun::run_into(ctx, &mut rep, crate::fuzzrun::Campaign { target: "hash_header", prop: "C15", runs_total: (ctx.scale * 8_000_000.0) as u64, max_len: 200, seeds: vec![b"// @sha256 abc\n".to_vec(), b"//\n// @sha256 // @sha256 x\r\n\nfn f(){}".to_vec()], dict: true });
-        crate::fuzzrun::run_into(ctx, &mut rep, crate::fuzzrun::Campaign { target: "text_frontend", prop: "C15", runs_total: (ctx.scale * 1_000_000.0) as u64, max_len: 2048, seeds: crate::fuzzrun::text_seeds(), dict: true });
+        crate::fuzzrun::run_into(ctx, &mut rep, crate::fuzzrun::Campaign { target: "hash_header", prop: "C15", runs_total: (ctx.scale * 100_000_000.0) as u64, max_len: 200, seeds: vec![b"// @sha256 abc\n".to_vec(), b"//\n// @sha256 // @sha256 x\r\n\nfn f(){}".to_vec()], dict: true });
+        crate::fuzzrun::run_into(ctx, &mut rep, crate::fuzzrun::Campaign { target: "text_frontend", prop: "C15", runs_total: (ctx.scale * 10_000_000.0) as u64, max_len: 2048, seeds: crate::fuzzrun::text_seeds(), dict: true });
     }
     quota_check(&mut rep, &["header:hash-found", "header:none", "source:accepted"]);
     rep.finish()
@@ -601,7 +601,7 @@ pub fn c18_run(ctx: &Ctx) -> i32 {
     );
     rep.absorb("E1-proptest-u8-wide", out);
     if ctx.tier == Tier::Thorough {
-        crate::fuzzrun::run_into(ctx, &mut rep, crate::fuzzrun::Campaign { target: "oset_ops", prop: "C18", runs_total: (ctx.scale * 8_000_000.0) as u64, max_len: 400, seeds: vec![vec![5, 1, 3, 1, 3, 4, 2, 3, 3, 1, 2, 3, 1, 1, 2, 1]], dict: false });
+        crate::fuzzrun::run_into(ctx, &mut rep, crate::fuzzrun::Campaign { target: "oset_ops", prop: "C18", runs_total: (ctx.scale * 20_000_000.0) as u64, max_len: 400, seeds: vec![vec![5, 1, 3, 1, 3, 4, 2, 3, 3, 1, 2, 3, 1, 1, 2, 1]], dict: false });
     }
     quota_check(&mut rep, &["pair:equal-sets", "pair:different-sets"]);
     rep.finish()
@@ -805,8 +805,8 @@ pub fn c12_run(ctx: &Ctx) -> i32 {
     let out = run_sharded(ctx, "C12", ctx.budget(150_000, 3_000_000), || raw_text(&[0]), c12_test);
     rep.absorb("E1-proptest", out);
     if ctx.tier == Tier::Thorough {
-        crate::fuzzrun::run_into(ctx, &mut rep, crate::fuzzrun::Campaign { target: "text_frontend", prop: "C12", runs_total: (ctx.scale * 2_000_000.0) as u64, max_len: 2048, seeds: crate::fuzzrun::text_seeds(), dict: true });
-        crate::fuzzrun::run_into(ctx, &mut rep, crate::fuzzrun::raw_campaign("C12", (ctx.scale * 100_000.0) as u64));
+        crate::fuzzrun::run_into(ctx, &mut rep, crate::fuzzrun::Campaign { target: "text_frontend", prop: "C12", runs_total: (ctx.scale * 20_000_000.0) as u64, max_len: 2048, seeds: crate::fuzzrun::text_seeds(), dict: true });
+        crate::fuzzrun::run_into(ctx, &mut rep, crate::fuzzrun::raw_campaign("C12", (ctx.scale * 500_000.0) as u64));
     }
     quota_check(&mut rep, &["attrs-on:terminal-enum", "attributes:6"]);
     rep.finish()
@@ -973,8 +973,8 @@ pub fn c13_run(ctx: &Ctx) -> i32 {
     let out = run_sharded(ctx, "C13", ctx.budget(150_000, 3_000_000), || raw_text(&[0]), c13_test);
     rep.absorb("E1-proptest", out);
     if ctx.tier == Tier::Thorough {
-        crate::fuzzrun::run_into(ctx, &mut rep, crate::fuzzrun::Campaign { target: "text_frontend", prop: "C13", runs_total: (ctx.scale * 2_000_000.0) as u64, max_len: 2048, seeds: crate::fuzzrun::text_seeds(), dict: true });
-        crate::fuzzrun::run_into(ctx, &mut rep, crate::fuzzrun::raw_campaign("C13", (ctx.scale * 100_000.0) as u64));
+        crate::fuzzrun::run_into(ctx, &mut rep, crate::fuzzrun::Campaign { target: "text_frontend", prop: "C13", runs_total: (ctx.scale * 20_000_000.0) as u64, max_len: 2048, seeds: crate::fuzzrun::text_seeds(), dict: true });
+        crate::fuzzrun::run_into(ctx, &mut rep, crate::fuzzrun::raw_campaign("C13", (ctx.scale * 500_000.0) as u64));
     }
     quota_check(&mut rep, &["max-type-depth:2", "max-type-depth:4"]);
     rep.finish()
